@@ -42,7 +42,12 @@ def bytecode_suspensions(code) -> Set[Tuple[int, int]]:
 def cfg_suspensions(g) -> Set[Tuple[int, int]]:
     out = set()
     for n in g.nodes:
-        if not n.suspends:
+        if n.kind == 'inline_enter' and n.meta.get('awaited') and not n.meta.get('inlined') and n.meta.get('await_ast') is not None:
+            # `await helper(...)` with the helper inlined: the await expression itself is the suspension point
+            a = n.meta['await_ast']
+            out.add((a.lineno, a.col_offset))
+            continue
+        if not n.suspends or n.meta.get('inlined'):
             continue
         if n.kind in ('await', 'yield'):
             out.add((n.ast.lineno, n.ast.col_offset))
